@@ -101,15 +101,24 @@ def norm (s : State) : State :=
   { pcs := s.pcs.map (renPc f), map := mp.map (fun p => (p.1, f p.2)), heap := live.map cell,
     wh := sortPairs s.wh, rh := sortPairs s.rh }
 
-/-- closure under internal steps: work list + hash set -/
-partial def close (rw : Bool) (seen : Std.HashSet State) (todo : List State) (acc : Array State) : Array State :=
-  match todo with
-  | [] => acc
-  | s :: rest =>
-    let nexts := (succ rw true [] s).filterMap (fun p => match p.1 with | none => some (norm p.2) | some _ => none)
-    let (seen, todo, acc) := nexts.foldl (fun (x : Std.HashSet State × List State × Array State) s' =>
-      if x.1.contains s' then x else (x.1.insert s', s' :: x.2.1, x.2.2.push s')) (seen, rest, acc)
-    close rw seen todo acc
+/-- closure under internal steps: work list + hash set; fuel-bounded so that it is an ordinary (provable) definition:
+`C09.closeF_sound` / `C09.judge_accept_sound` (Props/C09accept.lean) are about exactly this function -/
+def closeF (rw : Bool) : Nat → Std.HashSet State → List State → Array State → Array State
+  | 0, _, _, acc => acc
+  | fuel + 1, seen, todo, acc =>
+    match todo with
+    | [] => acc
+    | s :: rest =>
+      let nexts := (succ rw true [] s).filterMap (fun p => match p.1 with | none => some (norm p.2) | some _ => none)
+      let r := nexts.foldl (fun (x : Std.HashSet State × List State × Array State) s' =>
+        if x.1.contains s' then x else (x.1.insert s', s' :: x.2.1, x.2.2.push s')) (seen, rest, acc)
+      closeF rw fuel r.1 r.2.1 r.2.2
+
+/-- the budget is far beyond any state set the judge meets (a run out of fuel would only make the judge accept fewer traces) -/
+def closeBudget : Nat := 10000000
+
+def close (rw : Bool) (seen : Std.HashSet State) (todo : List State) (acc : Array State) : Array State :=
+  closeF rw closeBudget seen todo acc
 
 /-- the states after the visible event `e` (cf. `Conc.stepEvent`) -/
 def stepEvent (rw : Bool) (ops : List Op) (ss : List State) (e : Event) : List State :=
